@@ -4,7 +4,7 @@
   every period, every finite stream, every prefix; its running mean is the window mean and its
   `m2` accumulator is the (non-negative) sum of squared deviations, so the clamp never fires.
 -/
-import TaRs.Lemmas.StandardDeviation
+import TaRs.Lemmas.Core.StandardDeviation
 import TaRs.Lemmas.Ring
 import TaRs.Lemmas.XLemmas
 import TaRs.Lemmas.Machine
